@@ -105,9 +105,9 @@ def run_once(src, syntax, ns_spec, level, fault_at=None, kind='raise',
     world = World(return_exc=DTReturn, fault_at=fault_at, fault_kind=kind,
                   fault2_at=fault2_at)
     ns = build_ns(ns_spec, world, 'impl')
-    for v in ns.values():
+    for v in list(ns.values()):
         if isinstance(v, Mutator):
-            v.target = ns
+            v.target = ns if v.on is None else ns[v.on]
     t = harness.make_template(src, syntax)
     md = TemplateDict()
     md._push(ns)
@@ -248,6 +248,16 @@ def enumerated_programs():
         'raise': [v('fr')],
         'return': [dict(k='return', ref=dict(r='name', n='vn'))],
         'sub': [v('ta'), v('tx')],
+        'with-fill': [dict(k='with', ref=dict(r='name', n='mf'),
+                           mapping=True, only=False,
+                           body=[v('muf'), v('va')])],
+        'with-empty': [dict(k='with', ref=dict(r='name', n='me'),
+                            mapping=True, only=False,
+                            body=[v('va'), v('mue'), v('vb')])],
+        'subcall-tuple': [dict(k='var', ref=dict(r='expr', e=dict(
+            e='raw', s='ta((oa, ho), _)')), opts=[])],
+        'subcall-empty': [dict(k='var', ref=dict(r='expr', e=dict(
+            e='raw', s='ta((), _)')), opts=[])],
     }
     kinds = sorted(BLOCKS)
     for i, outer in enumerate(kinds):
@@ -255,7 +265,8 @@ def enumerated_programs():
             for k, (an, act) in enumerate(sorted(actions.items())):
                 if (i + j + k) % 2:
                     continue            # half of the product, evenly spread
-                handler_act = actions[sorted(actions)[(i + j + k) % 3]]
+                handler_act = actions[sorted(actions)[(i + j + k) % len(
+                    actions)]]
                 prog = [dict(k='try', body=[BLOCKS[outer]([
                     v('va'), BLOCKS[inner](act + [v('vb')]), v('fa')])],
                     handlers=[dict(names=[], body=handler_act + [v('va')])],
